@@ -45,39 +45,38 @@ SenWhy(e, g, ctx) ==
     [] e.t = "bool" -> IF g.t = "bool" /\ g.v = e.v THEN <<>> ELSE <<ctx, "bool", "read-as", g.t>>
     [] IsNum(e) -> IF IsNum(g) /\ DecCmp(NumDec(g), NumDec(e)) = 0 THEN <<>> ELSE <<ctx, e.t, "read-as", g.t>>
     [] e.t = "str" -> IF g.t = "str" /\ SameStr(e.v, g.v) THEN <<>> ELSE StrLocus(e.v, ctx) \o <<"read-as", g.t>>
-    \* (the per-child results are computed once, as a sequence: a nested LET that called SenWhy twice would be exponential in depth)
     [] e.t = "arr" -> IF g.t # "arr" THEN <<ctx, "arr", "read-as", g.t>>
                       ELSE LET n == IF Len(e.v) < Len(g.v) THEN Len(e.v) ELSE Len(g.v)
-                               rs == [i \in 1..n |-> SenWhy(e.v[i], g.v[i], "elem")]
-                               bad == {i \in 1..n : rs[i] # <<>>}
-                           IN IF bad # {} THEN rs[Min(bad)]
-                              ELSE IF Len(e.v) # Len(g.v) THEN <<ctx, "arr", "length">> ELSE <<>>
+                               w == FirstBad(LAMBDA i : SenWhy(e.v[i], g.v[i], "elem"), n)
+                           IN IF w # <<>> THEN w ELSE IF Len(e.v) # Len(g.v) THEN <<ctx, "arr", "length">> ELSE <<>>
     [] e.t = "obj" -> IF g.t # "obj" THEN <<ctx, "obj", "read-as", g.t>>
                       ELSE LET n == Len(e.k)
                                lost == {i \in 1..n : ~\E j \in 1..Len(g.k) : SameStr(e.k[i], g.k[j])}
                            IN IF lost # {} THEN StrLocus(e.k[Min(lost)], "key") \o <<"key-lost">>
                               ELSE IF Len(g.k) # n THEN <<ctx, "obj", "extra-key">>
-                              ELSE LET gi == [i \in 1..n |-> CHOOSE j \in 1..Len(g.k) : SameStr(e.k[i], g.k[j])]
-                                       rs == [i \in 1..n |-> SenWhy(e.v[i], g.v[gi[i]], "value")]
-                                       bad == {i \in 1..n : rs[i] # <<>>}
-                                   IN IF bad = {} THEN <<>> ELSE rs[Min(bad)]
+                              ELSE FirstBad(LAMBDA i : SenWhy(e.v[i], g.v[CHOOSE j \in 1..Len(g.k) : SameStr(e.k[i], g.k[j])], "value"), n)
     [] OTHER -> <<ctx, "bad-input-node">>
 \* when the reader rejects the text there is no parsed value: name the first string (pre-order, keys before values) that the
 \* model predicts to be misread
 RECURSIVE Suspect(_, _)
 Suspect(e, ctx) ==
   CASE e.t = "str" -> IF PredictedUnsafe(e.v, ctx, HtmlSafe) THEN StrLocus(e.v, ctx) ELSE <<>>
-    [] e.t = "arr" -> LET rs == [i \in 1..Len(e.v) |-> Suspect(e.v[i], "elem")]
-                          bad == {i \in 1..Len(e.v) : rs[i] # <<>>}
-                      IN IF bad = {} THEN <<>> ELSE rs[Min(bad)]
-    [] e.t = "obj" -> LET kb == {i \in 1..Len(e.k) : PredictedUnsafe(e.k[i], "key", HtmlSafe)}
-                          rs == [i \in 1..Len(e.v) |-> Suspect(e.v[i], "value")]
-                          vb == {i \in 1..Len(e.v) : rs[i] # <<>>}
-                      IN IF kb # {} /\ (vb = {} \/ Min(kb) <= Min(vb)) THEN StrLocus(e.k[Min(kb)], "key")
-                         ELSE IF vb # {} THEN rs[Min(vb)] ELSE <<>>
+    [] e.t = "arr" -> FirstBad(LAMBDA i : Suspect(e.v[i], "elem"), Len(e.v))
+    [] e.t = "obj" -> FirstBad(LAMBDA i : IF PredictedUnsafe(e.k[i], "key", HtmlSafe) THEN StrLocus(e.k[i], "key")
+                                          ELSE Suspect(e.v[i], "value"), Len(e.v))
+    [] OTHER -> <<>>
+\* fallback when the model of the writer would have quoted everything dangerous: the first string that is not a safe bare token
+RECURSIVE Unsafe2(_, _)
+Unsafe2(e, ctx) ==
+  CASE e.t = "str" -> IF e.v # <<>> /\ ~SafeBare(e.v, ctx) THEN StrLocus(e.v, ctx) ELSE <<>>
+    [] e.t = "arr" -> FirstBad(LAMBDA i : Unsafe2(e.v[i], "elem"), Len(e.v))
+    [] e.t = "obj" -> FirstBad(LAMBDA i : IF e.k[i] # <<>> /\ ~SafeBare(e.k[i], "key") THEN StrLocus(e.k[i], "key")
+                                          ELSE Unsafe2(e.v[i], "value"), Len(e.v))
     [] OTHER -> <<>>
 Verdict(o) ==
-  IF o.ek # "" THEN [kind |-> o.ek, loc |-> (LET s == Suspect(val, "top") IN IF s = <<>> THEN <<"unpredicted">> ELSE s)]
+  IF o.ek # "" THEN [kind |-> o.ek, loc |-> (LET s == Suspect(val, "top") IN
+                                             IF s # <<>> THEN s
+                                             ELSE LET u == Unsafe2(val, "top") IN IF u = <<>> THEN <<"unpredicted">> ELSE u \o <<"model-quotes">>)]
   ELSE LET w == SenWhy(val, Expand(o.r), "top") IN IF w = <<>> THEN [kind |-> "ok", loc |-> <<>>] ELSE [kind |-> "wrong-value", loc |-> w]
 \* model drift (logged, never a verdict): a single top-level string whose fate the model predicts differently
 Drift(o, vd) == val.t = "str" /\ val.v # <<>> /\ (PredictedUnsafe(val.v, "top", HtmlSafe) <=> vd.kind = "ok")
